@@ -184,7 +184,7 @@ func init() {
 				guardRe("leaf hash equals H(leaf)", `^true\(bytes\.Equal\(\w+\.LeafHash, crypto/merkle\.leafHash\(leaf\)\)\)$`),
 				guardRe("recomputed root equals the given root", `^true\(bytes\.Equal\(\w+\.ComputeRootHash\(\), rootHash\)\)$`),
 			} {
-				c.Check(c.ge().ensures(f, g, 0), "crypto/merkle.Proof.Verify ensures "+g.Name, w.pos(f.Pos()), "nil only behind this check", "Verify can return nil without: "+g.Name)
+				c.Check(c.ge().ensures(f, g, 2), "crypto/merkle.Proof.Verify ensures "+g.Name, w.pos(f.Pos()), "nil only behind this check", "Verify can return nil without: "+g.Name)
 			}
 		}
 		if f := c.fn("crypto/merkle", "Proof.ComputeRootHash"); f != nil {
@@ -224,7 +224,7 @@ func init() {
 				guardCmp("index non-negative", `\w+\.Proof\.Index`, ">=", "0"),
 				guardCmp("total positive", `\w+\.Proof\.Total`, ">", "0"),
 			} {
-				c.Check(c.ge().ensures(f, g, 0), "types.TxProof.Validate ensures "+g.Name, w.pos(f.Pos()), "nil only behind this check", "Validate can return nil without: "+g.Name)
+				c.Check(c.ge().ensures(f, g, 2), "types.TxProof.Validate ensures "+g.Name, w.pos(f.Pos()), "nil only behind this check", "Validate can return nil without: "+g.Name)
 			}
 		}
 		leaf := ""
